@@ -103,8 +103,8 @@ def make_harness(bases_, prepare=None):
         # prehistory: caches keyed by node hash / equality must not leak between trees.  An
         # identical tree is built, indexed and queried, then detached (its ids are taken over by
         # the tree under test) or replaced by an equal root.
-        pre = e.pick(["none", "identical-tree-indexed-then-detached", "root-replaced-by-equal-root"], "prehistory")
-        if pre == "none":
+        pre = e.pick(["none", "identical-tree-indexed-then-detached", "root-replaced-by-equal-root", "second-tree-built-afterwards-over-the-same-children"], "prehistory")
+        if pre in ("none", "second-tree-built-afterwards-over-the-same-children"):
             root = build(recipe)
         else:
             from pyoak.match.xpath import ASTXpath
@@ -121,6 +121,26 @@ def make_harness(bases_, prepare=None):
             else:
                 root = root0.replace()
         tree = Tree(root)
+        other_tree = None
+        if pre == "second-tree-built-afterwards-over-the-same-children":
+            # Trees are independent objects: a second Tree, built later over another root that holds
+            # the same child objects (in reverse order, under a parent of another class), stays alive
+            kids = list(root.get_child_nodes())
+            if not kids:
+                e.assume(False)
+            other_root = CLASSES["VMany"](items=tuple(reversed(kids)))
+            other_tree = Tree(other_root)
+            other_tree.get_depth(kids[0])
+            for q in (tree.get_parent, tree.get_parent_info, tree.get_depth, tree.get_xpath):
+                try:
+                    q(other_root)
+                    raised = False
+                except KeyError:
+                    raised = True
+                if not raised:
+                    e.fail("query-about-foreign-node-does-not-raise-KeyError", scenario={"tree": describe(recipe), "prehistory": pre, "query": q.__name__, "foreign": "the root of the second tree"})
+            if tree.is_in_tree(other_root):
+                e.fail("foreign-node-in-tree", scenario={"tree": describe(recipe), "prehistory": pre})
         paths = positions_of(recipe)
         nodes = [node_at(root, p) for p in paths]
         parent_of = {tuple(p): tuple(p[:-1]) for p in paths if p}
